@@ -681,8 +681,11 @@ func (sema *ExprSemanticsChecker) checkArrayDeref(n *ArrayDerefNode) ExprType {
 		// For strict object at receiver of .*
 		found := false
 		for _, t := range ty.Props {
-			if _, ok := t.(*ObjectType); ok {
+			switch t.(type) {
+			case *ObjectType, AnyType: // Element typed as any may be an object
 				found = true
+			}
+			if found {
 				break
 			}
 		}
